@@ -944,6 +944,7 @@ def validate(ctx, cases, label, report=True, beside=None):
                 box["exc"] = e
         side = (threading.Thread(target=runner), box)
         side[0].start()
+    live = {f["signature"].get("clause") for f in getattr(ctx, "findings", []) if f.get("status") == "known"}
     if todo:
         # classify: smallest set of named deviations under which the whole recording is accepted
         # (the dm-only deviations have no effect on legacy recordings: one run for all)
@@ -956,7 +957,9 @@ def validate(ctx, cases, label, report=True, beside=None):
             rest = []
             for c, rj in items:
                 ok = [fsets[i] for i in range(len(fsets)) if v.get((c["id"], i + 1), ("x",))[0] == "accept"]
-                ok.sort(key=len)
+                # smallest set; among equally small ones prefer deviations that are still present in the code under
+                # test (known_findings.jsonl, status known) to repaired ones whose model happens to fit as well
+                ok.sort(key=lambda fs: (len(fs), sum(1 for f in fs if f not in live)))
                 if ok:
                     rejections.append({"case": c, "flags": ok[0], "rej": rj})
                 else:
